@@ -229,6 +229,10 @@ func (p *ParagraphReader) Next() (*Paragraph, error) {
 			 * right hand, because indentation under the whitespace is up to
 			 * the data format. Not us. */
 
+			if len(paragraph.Order) == 0 {
+				return nil, fmt.Errorf("Bad line: '%s' continues nothing", line)
+			}
+
 			/* TrimFunc(line[1:], unicode.IsSpace) is identical to calling
 			 * TrimSpace. */
 			line = strings.TrimRightFunc(line[1:], unicode.IsSpace)
